@@ -194,9 +194,9 @@ def main():
         "setup_cmd": "./setup.sh",
         "hooks": {
             "guard": "SUPERREC2_VERIF",
-            "enable": "checks import /repo/src directly (editable install, nothing to build); SUPERREC2_VERIF=1 turns the optional Entry tracing hook on",
+            "enable": "checks import /repo/src directly (editable install, nothing to build); C16 starts solver runs in child processes with SUPERREC2_VERIF=1 and SUPERREC2_VERIF_TRACE=<file>, which makes Entry.update append one JSON line per call (read at import time; with the guard off the module only tests `_VERIF_LOG is not None`)",
             "baseline_off_cmd": "cd /repo && env -u SUPERREC2_VERIF /venv/bin/python -m pytest -ra -q -p no:cacheprovider --timeout=900 --continue-on-collection-errors",
-            "source_commits": [],
+            "source_commits": ["7ddeabc"],
             "add_only": True,
         },
         "engines": [
